@@ -84,6 +84,14 @@ func Errors() Profile {
 		Maps: true, PrimPayloads: true, Errors: true, CustomErrors: true, ParamHeavy: true}
 }
 
+// Routes is the C07/C14 document profile: routes, verbs, base paths, params in every location, file servers, security.
+func Routes() Profile {
+	return Profile{Name: "routes", MaxServices: 3, MaxMethods: 4, MaxFields: 5, Runtime: true,
+		Validations: true, Defaults: true, UserTypes: true, Aliases: true, Recursive: true, ResultTypes: true, Collections: true,
+		Errors: true, CustomErrors: true, Security: true, MultiRoute: true, BasePaths: true, Cookies: true, Tags: true, RespHeaders: true,
+		ExplicitBody: true, Maps: true, Bytes: true, Files: true, AllVerbs: true, PrimPayloads: true, NoBodyVerbs: true, ParamHeavy: true, Meta: true}
+}
+
 // Views is the C08 profile.
 func Views() Profile {
 	return Profile{Name: "views", MaxServices: 2, MaxMethods: 3, MaxFields: 5, Runtime: true,
@@ -657,7 +665,11 @@ func (g *G) validation(a *m.Attr, depth int) *m.Validation {
 			lo += 0.5
 			hi += 0.25
 		}
-		switch rapid.IntRange(0, 5).Draw(t, "boundkind") {
+		bk := rapid.IntRange(0, 5).Draw(t, "boundkind")
+		if bk >= 3 && g.avoid("C07-exclusive-bounds-as-numbers") {
+			bk -= 3
+		}
+		switch bk {
 		case 0:
 			v.Min = fp(lo)
 		case 1:
@@ -725,6 +737,12 @@ func (g *G) setDefault(a *m.Attr) {
 		return // defaults on aliases are set at the use site only for primitives
 	}
 	v := ValidValue(g.d, a, 0).Draw(g.t, "defaultval")
+	if v.K == "uint" && ((k == m.UInt32 && v.U > 1<<31-1) || v.U > 1<<63-1) && g.avoid("C07-uint32-documented-as-int32") {
+		v.U = 7
+		if val := MergedValidation(g.d, a); val.Min != nil || val.ExclMin != nil || len(val.Enum) > 0 {
+			return
+		}
+	}
 	a.Default = &v
 	g.feat("default")
 }
